@@ -76,10 +76,14 @@ func main() {
 	}
 
 	if *dump != "" {
-		p, err := loadProgram(*repo, "linux", "amd64", false)
+		p, err := loadProgram(*repo, "linux", "amd64", true)
 		if err != nil {
 			fmt.Println(err)
 			os.Exit(2)
+		}
+		if strings.HasPrefix(*dump, "closure:") {
+			debugClosure(p, newRun(p, "dbg", "quick"), strings.Split(strings.TrimPrefix(*dump, "closure:"), ","))
+			return
 		}
 		dumpFunc(p, *dump)
 		return
